@@ -549,3 +549,46 @@ func ComplementByte(b byte) byte {
 	}
 	return b
 }
+
+// OnlyRepeatedPointsRemoved reports whether after denotes the residues of
+// before minus at least one back-to-back repeat, and every residue that
+// occurs less often afterwards can be accounted for by single-base point
+// parts of before (join(1,1) -> 1, join(2,2..3) -> 2..3): the shape the listed
+// finding join-reduction-not-idempotent is about. Repeats between two ranges
+// (join(4..4,4..6)) are left alone by the documented reductions.
+func OnlyRepeatedPointsRemoved(before, after []Part) bool {
+	type key struct {
+		pos int
+		rev bool
+	}
+	cntB, cntA, pts := map[key]int{}, map[key]int{}, map[key]int{}
+	for _, p := range before {
+		for _, a := range Atoms([]Part{p}) {
+			if a.Site {
+				continue
+			}
+			k := key{a.Pos, a.Rev}
+			cntB[k]++
+			if p.Kind == KPoint {
+				pts[k]++
+			}
+		}
+	}
+	for _, a := range Bases(Atoms(after)) {
+		cntA[key{a.Pos, a.Rev}]++
+	}
+	removed := 0
+	for k, n := range cntB {
+		d := n - cntA[k]
+		if d < 0 || d > pts[k] || (d > 0 && cntA[k] == 0) {
+			return false
+		}
+		removed += d
+	}
+	for k := range cntA {
+		if cntB[k] == 0 {
+			return false
+		}
+	}
+	return removed > 0
+}
